@@ -222,6 +222,14 @@ func (ex *Exec) eventName(fn *types.Func, call *ast.CallExpr) (string, bool) {
 		return "", false
 	}
 	if fn != nil {
+		if ex.contract != nil && len(ex.inlineStack) == 0 {
+			// a callee named by an at-call clause of the unit under verification is an event of that unit
+			for _, ac := range ex.contract.AtCall {
+				if ac.Callee == fn.Name() {
+					return fn.Name(), true
+				}
+			}
+		}
 		if ex.emittedPkg(fn) {
 			return fn.Name(), true
 		}
